@@ -52,3 +52,25 @@ func H_C05_sqrt() {
 	vAssert("C08.inv", invOK(z))
 	vReach("end")
 }
+
+// H_C05_alias: Sqrt gives the same result when the receiver is the operand
+// itself (exponent parity/halving bookkeeping must not read x after it was overwritten).
+func H_C05_alias() {
+	w := vCfgOr("w", 1)
+	x := vDec("x", fFinite, w, 0, vCfgOr("px", w*_DW))
+	vAssume(!x.neg)
+	y := new(Decimal).Copy(x) // same value, precision and mode
+	z := new(Decimal).SetMode(x.mode).SetPrec(uint(x.prec))
+	k1 := vCatch(func() { z.Sqrt(x) })
+	k2 := vCatch(func() { y.Sqrt(y) })
+	vAssert("C04.nopanic", vAnd(k1 == 0, k2 == 0))
+	ok := vAnd(z.form == y.form, vAnd(z.neg == y.neg, vAnd(z.prec == y.prec, z.mode == y.mode)))
+	if z.form == finite && y.form == finite {
+		ok = vAnd(ok, vAnd(z.exp == y.exp, len(z.mant) == len(y.mant)))
+		if len(z.mant) == len(y.mant) {
+			ok = vAnd(ok, sEq(sFromWords(z.mant), sFromWords(y.mant)))
+		}
+	}
+	vAssert("C05.alias", ok)
+	vReach("end")
+}
